@@ -245,15 +245,25 @@ def part_mixed(ctx):
                 rng.choice([0, 1, 2, 0.5])
             cmd = rng.choice(COMMANDS)
             a, b, c = REG3[mode]
-            parts.append('units {} {} {} {} {} {} {} kelvin {} duration {} {} '
+            restate = 'duration {} '.format(lit(d))
+            if segs and rng.random() < 0.3:
+                # the duration is not set again: the one in force is carried
+                # through the unit switch (the same span of time, re-expressed)
+                pmode, pd = segs[-1][0], segs[-1][1][4]
+                d = pd * 1000 if (mode == 'raw') > (pmode == 'raw') else \
+                    F(pd) / 1000 if (mode == 'raw') < (pmode == 'raw') else pd
+                restate = ''
+                ctx.count('mixed_durations_carried')
+            parts.append('units {} {} {} {} {} {} {} kelvin {} {}{} '
                          'print {}'.format(mode, a, lit(vals3[0]), b,
                                            lit(vals3[1]), c, lit(vals3[2]),
-                                           lit(k), lit(d), cmd, j))
+                                           lit(k), restate, cmd, j))
             segs.append((mode, tuple(vals3) + (k, d), cmd))
         text = ' '.join(parts)
         r = run_script(text)
         replay = {'part': 'mixed', 'script': text,
-                  'segments': [[m, list(v), c] for m, v, c in segs]}
+                  'segments': [[m, [float(x) for x in v], c]
+                               for m, v, c in segs]}
         ctx.case('M:' + text)
         ctx.count('mixed_scripts')
         if not r.accepted or r.stops:
